@@ -304,13 +304,13 @@ def gen_fault_cases(lay, ioc, seed, tier):
                     if off <= cut < off + lay.hdr + 1:
                         at_hdr = True
                     off += len(b)
-                if at_hdr or (cut + seed) % 4 == 0:
+                if at_hdr or (cut + seed) % 2 == 0:
                     ends.append("silent")
-                if (cut + seed) % 16 == 1:
+                if (cut + seed) % 8 == 1:
                     ends.append("halfclose")
             for end in ends:
                 modes = ["step"] if quick else ["step", "pipe"]
-                if quick and (cut * 7 + seed) % 8 == 0:
+                if quick and (cut * 7 + seed) % 3 == 0:
                     modes.append("pipe")
                 for mode in modes:
                     W.append({"kind": "trunc", "run": rname, "cut": cut, "end": end, "mode": mode, "state": "S0"})
@@ -1156,11 +1156,14 @@ def gen_token_schedule(seed, index, tier):
 
     # directed opening: A gets the token, B asks with a better claim, A does one of the things a holder can do
     a, b = rng.sample(range(nt), 2)
+    how = index % 10
     pa = dict(profile(BG, 1), sub=0x10, min=rng.choice([0, 3600]))
     pb = dict(profile(BG, 1), sub=rng.choice([0x10, 0x20, 0x40]), min=rng.choice([0, 3600]))
+    if how in (0, 9):
+        # B has the same claim and has to wait: whatever A does now, it was not asked to
+        pa["min"], pb["sub"] = 3600, 0x10
     ops.append(dict({"op": "req", "c": a}, **pa))
     ops.append(dict({"op": "req", "c": b}, **pb))
-    how = index % 10
     if how == 0:
         ops.append({"op": "cnf", "c": a})                      # confirm (asked or not)
     elif how == 1:
@@ -1179,6 +1182,9 @@ def gen_token_schedule(seed, index, tier):
         ops.append({"op": "intruder"})                          # a connection that never asks for a priority
     elif how == 8:
         ops.append({"op": "notify", "c": a, "flags": 4})       # channel flush by the holder
+    elif how == 9:
+        ops.append({"op": "notify", "c": a, "flags": rng.choice([0, 8, 16])})   # harmless notifications by the holder
+        ops.append({"op": "cnf", "c": a})
     ops.append({"op": "react"})
     if nw:
         ops.append({"op": "tick", "n": 1})
@@ -1336,8 +1342,10 @@ class TokenRun(FaultBatch):
         if self.wtoks:
             self.rig.barrier()
             for t in self.wtoks.values():
-                if t.alive and not t.proc.eof:
+                if t.alive and not t.proc.eof and t.proc.connected:
                     self.w_cmd(t, "drain", "drained")
+                else:
+                    self.w_absorb(t)
 
     def react(self, explicit=False):
         for _round in range(6):
@@ -1555,9 +1563,17 @@ class TokenRun(FaultBatch):
                     self.leave({"c": slot}, slot % 2 == 0)
                 rig.barrier()
                 if self.wit is not None:
-                    self.wit.leave_all(self.rng)
-                    for t in self.wtoks.values():
-                        self.w_absorb(t)
+                    order = sorted(self.wtoks)
+                    self.rng.shuffle(order)
+                    for slot in order:
+                        t = self.wtoks[slot]
+                        if self.wit.union() != 0:
+                            self.op_tick({"n": 1})
+                        # the controller makes it leave: logged before the fact, like every send
+                        if t.alive:
+                            self.L("gone", t)
+                        self.wit.op_close({"c": slot})
+                        self.settle()
                     rig.barrier()
                 if rig.device_open_count() != 0:
                     self.v("model:C19:device-not-closed", "all clients have left but the capture device is still open (opens=%d closes=%d)"
